@@ -182,3 +182,117 @@ theorem issued_refresh_ok (w : World) (hw : Reachable w) (usk : Usk) (hi : Issue
     simp [hnr]
 
 end CC
+
+namespace CC
+open CC.Look
+
+theorem generateUserId_users (msk : Msk) (n : Rng) :
+    ∀ id ∈ (generateUserId msk n).2.1.users, id ∈ msk.users ∨ (∀ m ∈ id, n ≤ m ∧ m < (generateUserId msk n).2.2) := by
+  unfold generateUserId
+  by_cases hnt : msk.ntracers = 0
+  · simp only [hnt, if_true]; intro id hid; exact Or.inl hid
+  · simp only [hnt, if_false]
+    intro id hid
+    split at hid
+    · exact Or.inl hid
+    · rcases List.mem_append.1 hid with h | h
+      · exact Or.inl h
+      · right
+        simp only [List.mem_singleton] at h
+        subst h
+        intro m hm
+        obtain ⟨k, hk, rfl⟩ := List.mem_map.1 hm
+        have := List.mem_range.1 hk
+        exact ⟨Nat.le_add_left _ _, by omega⟩
+
+theorem generateUserId_mono (msk : Msk) (n : Rng) : n ≤ (generateUserId msk n).2.2 := by
+  unfold generateUserId
+  by_cases hnt : msk.ntracers = 0
+  · simp [hnt]
+  · simp only [hnt, if_false]; exact Nat.le_add_right _ _
+
+/-- every identifier registered after an operation was registered before it, or is made of tokens
+drawn by that operation -/
+theorem step_users (w : World) (op : Op) :
+    ∀ id ∈ (w.step op).msk.users, id ∈ w.msk.users ∨ (∀ m ∈ id, w.rng ≤ m ∧ m < (w.step op).rng) := by
+  cases op with
+  | edit e =>
+    simp only [World.step]
+    cases w.msk.structure_.apply e <;> exact fun id h => Or.inl h
+  | update =>
+    simp only [World.step]
+    unfold updateMsk
+    split
+    · exact fun id h => Or.inl h
+    · simp only
+      rcases updateLoop (w.msk.secrets.retain fun r => (w.msk.structure_.omega.lookup r).isSome) w.msk.structure_.omega w.rng with ⟨res, n'⟩
+      cases res <;> exact fun id h => Or.inl h
+  | rekey p =>
+    simp only [World.step]
+    cases w.msk.structure_.uskRights p with
+    | error _ => exact fun id h => Or.inl h
+    | ok rights =>
+      simp only
+      unfold rekey
+      split <;> exact fun id h => Or.inl h
+  | prune p =>
+    simp only [World.step]
+    cases w.msk.structure_.uskRights p with
+    | error _ => exact fun id h => Or.inl h
+    | ok rights => exact fun id h => Or.inl h
+  | keygen p =>
+    simp only [World.step]
+    cases w.msk.structure_.uskRights p with
+    | error _ => exact fun id h => Or.inl h
+    | ok rights =>
+      simp only
+      unfold uskKeygen
+      cases latestRightSks w.msk rights with
+      | error e => exact fun id h => Or.inl h
+      | ok chains =>
+        simp only
+        have hg := generateUserId_users w.msk w.rng
+        rcases hgen : generateUserId w.msk w.rng with ⟨res, m', n'⟩
+        rw [hgen] at hg
+        cases res <;> exact hg
+  | refresh usk keep =>
+    simp only [World.step]
+    unfold refresh
+    by_cases hv : verify w.msk usk = true
+    · simp only [hv, Bool.not_true, Bool.false_eq_true, if_false]
+      have key : ∀ id ∈ (refreshId w.msk usk.id w.rng).2.1.users,
+          id ∈ w.msk.users ∨ (∀ m ∈ id, w.rng ≤ m ∧ m < (refreshId w.msk usk.id w.rng).2.2) := by
+        unfold refreshId
+        by_cases hk : usk.id ∈ w.msk.users
+        · by_cases hl : usk.id.length = w.msk.ntracers
+          · simp only [hk, not_true_eq_false, if_false, hl, ne_eq]
+            exact fun id h => Or.inl h
+          · simp only [hk, not_true_eq_false, if_false, hl, ne_eq, not_false_eq_true, if_true]
+            have hg := generateUserId_users w.msk w.rng
+            rcases hgen : generateUserId w.msk w.rng with ⟨res, m', n'⟩
+            rw [hgen] at hg
+            cases res with
+            | error e => exact hg
+            | ok nid =>
+              simp only
+              intro id hid
+              exact hg id (List.mem_filter.1 hid).1
+        · simp only [hk, if_true]
+          exact fun id h => Or.inl h
+      rcases hid : refreshId w.msk usk.id w.rng with ⟨res, msk', n'⟩
+      rw [hid] at key
+      cases res with
+      | error e => exact key
+      | ok nid =>
+        simp only
+        generalize (if keep = true then Except.ok (refreshCoordinateKeys msk' usk.secrets)
+            else latestRightSks msk' ((usk.secrets.map (·.1)).filter (fun r => msk'.secrets.containsKey r))) = nr
+        cases nr <;> exact key
+    · simp only [hv, Bool.not_false, if_true]
+      exact fun id h => Or.inl h
+  | draw k => exact fun id h => Or.inl h
+
+/-- every registered identifier is made of tokens drawn already -/
+def World.UsersBelow (w : World) : Prop := ∀ id ∈ w.msk.users, ∀ m ∈ id, m < w.rng
+
+end CC
